@@ -33,8 +33,7 @@ ReadAll(ev) ==
   /\ IF ev.err = 0
        THEN Chk(ev.out = "ok" /\ ev.len = ev.srclen /\ ev.eq = 1,
                 "read_all returned a truncated or altered result although the source delivered every byte")
-       ELSE Chk(ev.out # "ok" \/ (ev.len = ev.delivered /\ ev.eq = 1),
-                "read_all after a read error: neither an exception nor exactly the bytes delivered")
+       ELSE Chk(ev.out # "ok", "read_all returned normally although a read failed: the result is silently truncated (an error is not the end of the data)")
   /\ IF ev.via = "fd" /\ ev.err = 0 /\ ~(/\ \A i \in DOMAIN ev.reqs : ev.reqs[i] = 16384
                                          /\ ev.plan # <<>> /\ ev.plan[Len(ev.plan)] = 0
                                          /\ \A i \in 1..(Len(ev.plan) - 1) : ev.plan[i] > 0)
